@@ -9,6 +9,9 @@ import CifModel.Model.Columns
       ↦ `sv rc=0 m=<field-level dump>` | `sv rc=2` (CHECK constraint / serialisation failure)
   `storeval bigparse <len> <t|q> <seed>`: a character value of <len> units read by the parser is the text written
       ↦ `sv rc=0 m=same`
+  `storeval parseloop 0 <value> | <value> | …`: one column of a parsed loop holding the values packet by packet; every packet
+  reads back as the image of its own value
+      ↦ `sv rc=0 m=<dump>,<dump>,…`
   `storeval itsession 0 <value tokens>`: one iterator, update of packet 1, a rejected update at packet 2, update of packet 3;
   the rows of the accepted updates hold `fromColumns (toColumns v)`, the row of the rejected one still holds the unknown value
       ↦ `sv rc=0 u=0,rej,0 m=<dump>,U,<dump>` | `sv rc=0 u=2,rej,2 m=U,U,U` (value refused by the columns)
@@ -19,7 +22,35 @@ open Driver.Fam.Ser (showV parseNumb)
 
 def name : String := "storeval"
 
+/-- the images of the values of a `|`-separated sequence, comma-joined (`none` = a value the codec refuses) -/
+def imagesOf (nf : Str → Str) (groups : List (List String)) : Option (Option (List String)) :=
+  groups.foldr (fun toks acc =>
+    match acc, CifArg.parseValue (Ser.cfg nf) (toks.length + 1) toks with
+    | some r, some (v, []) =>
+      match toColumns v with
+      | none => some none
+      | some row =>
+        if !checks row then some none else
+        match r with
+        | none => some none
+        | some ds =>
+          match fromColumns parseNumb row with
+          | some v' => some (some (showV v' :: ds))
+          | none => some (some ("~" :: ds))
+    | _, _ => none) (some (some []))
+
+def splitBar (toks : List String) : List (List String) :=
+  toks.foldr (fun t acc => if t == "|" then [] :: acc else match acc with | g :: r => (t :: g) :: r | [] => [[t]]) [[]]
+
 def handle : Handler
+  | "parseloop" :: "0" :: toks0 =>
+    match Ser.takeNormPairs toks0 with
+    | none => none
+    | some (nf, toks) =>
+      match imagesOf nf (splitBar toks) with
+      | none => none
+      | some none => some "sv rc=2"
+      | some (some ds) => some ("sv rc=0 m=" ++ ",".intercalate ds)
   | ["bigparse", len, style, seed] =>
     match len.toNat?, seed.toNat? with
     | some n, some _ => if n = 0 || !(["t", "q"].contains style) then none else some "sv rc=0 m=same"
